@@ -48,7 +48,7 @@ func calleeParams(cl ssa.CallInstruction, ai int) []*ssa.Parameter {
 		}
 		for _, t := range curProg.Implementers(iface) {
 			for _, recvT := range []types.Type{t, types.NewPointer(t)} {
-				sel := curProg.SSA.MethodSets.MethodSet(recvT).Lookup(cc.Method.Pkg(), cc.Method.Name())
+				sel := curProg.SSA.MethodSets.MethodSet(recvT).Lookup(cc.Method.Pkg(), FNm(cc.Method))
 				if sel == nil {
 					continue
 				}
@@ -122,6 +122,11 @@ func retainsValue(v ssa.Value, depth int, seen map[ssa.Value]bool) bool {
 				}
 				return true
 			}
+			// a field or element of an object that lives and dies with this call: a local struct whose address goes
+			// nowhere but to functions of the module that do not keep it
+			if root, isA := Root(x.Addr).(*ssa.Alloc); isA && root.Comment != "varargs" && !ptrLeaks(root, depth, map[ssa.Value]bool{}) {
+				continue
+			}
 			if ia, ok := x.Addr.(*ssa.IndexAddr); ok {
 				if a, isA := ia.X.(*ssa.Alloc); isA && a.Comment == "varargs" {
 					// an element of a variadic argument list: follow the slice made of the array
@@ -164,6 +169,67 @@ func retainsValue(v ssa.Value, depth int, seen map[ssa.Value]bool) bool {
 					}
 				}
 			}
+		}
+	}
+	return false
+}
+
+// ptrLeaks: may the address v (of a local object, or of a part of it) outlive the function - stored somewhere, returned,
+// captured, or handed to a function that keeps it?
+func ptrLeaks(v ssa.Value, depth int, seen map[ssa.Value]bool) bool {
+	if seen[v] || v.Referrers() == nil {
+		return false
+	}
+	seen[v] = true
+	for _, r := range *v.Referrers() {
+		switch x := r.(type) {
+		case *ssa.DebugRef:
+		case *ssa.FieldAddr:
+			if x.X == v && ptrLeaks(x, depth, seen) {
+				return true
+			}
+		case *ssa.IndexAddr:
+			if x.X == v && ptrLeaks(x, depth, seen) {
+				return true
+			}
+		case *ssa.UnOp:
+			if x.Op != token.MUL {
+				return true
+			}
+		case *ssa.Store:
+			if x.Val == v {
+				return true
+			}
+		case ssa.CallInstruction:
+			if _, isGo := x.(*ssa.Go); isGo {
+				return true
+			}
+			cc := x.Common()
+			if CallBuiltin(x) != "" {
+				continue
+			}
+			for ai, a := range cc.Args {
+				if a != v {
+					continue
+				}
+				qs := calleeParams(x, ai)
+				if len(qs) == 0 {
+					if sc := cc.StaticCallee(); sc != nil && !curProgRoot(sc) {
+						continue // outside the module: taken not to keep it
+					}
+					return true
+				}
+				for _, q := range qs {
+					if retainsParam(q, depth+1) {
+						return true
+					}
+				}
+			}
+			if cc.IsInvoke() && cc.Value == v {
+				return true
+			}
+		default:
+			return true
 		}
 	}
 	return false
